@@ -151,6 +151,9 @@ def cases(tier, seed):
     for gap, insts in sorted(cyc.items()):
         for inst in insts[:1]:
             yield dict(inst, target="MinFlowDecompCycles/solve-twice", cls="MinFlowDecompCycles", kw={"weight_type": "int"}, gap=gap, dev=dev, resolve=True)
+    yield dict(HAND_DAG[1][0], target="MinErrorFlow/solve-twice", cls="MinErrorFlow", kw={"weight_type": "int"}, perturb=True, dev=dev, resolve=True)
+    yield dict(HAND_DAG[1][0], target="MinErrorFlow+eps/solve-twice", cls="MinErrorFlow", kw={"weight_type": "int", "few_flow_values_epsilon": 0.5}, perturb=True, dev=dev, resolve=True)
+    yield dict(HAND_DAG[1][0], target="MinPathCover/solve-twice", cls="MinPathCover", kw={}, gap=0, dev=dev, resolve=True)
     yield {"target": "MinSetCover/solve-twice", "cls": "MinSetCover", "universe": [0, 1, 2], "subsets": [[0, 1], [1, 2], [0], [2]], "weights": [2, 2, 1, 1], "dev": dev, "resolve": True}
     yield {"target": "MinSetCover", "cls": "MinSetCover", "universe": [0, 1, 2], "subsets": [[0, 1], [1, 2], [0], [2]], "weights": [2, 2, 1, 1], "dev": dev}
 
@@ -187,6 +190,11 @@ def _execute(case, plan):
             if case.get("resolve"):
                 # history extension: the same object is solved again; what counts is the LAST run ("the current model")
                 obs["first_solve"] = (bool(r), bool(m.is_solved()))
+                if m.is_solved():
+                    # the user looks at the first answer (this is what fills the models' solution caches)
+                    m.get_solution()
+                    if hasattr(m, "get_objective_value"):
+                        m.get_objective_value()
                 r = m.solve()
             obs["solve_ret"] = bool(r)
             obs["solved"] = bool(m.is_solved())
